@@ -5,6 +5,7 @@ import IOptProofs.ProcessField
 import IOptProps.C07num
 import IOptProps.C05
 import IOptProps.C04
+import IOptProofs.ProcessReported
 import Mathlib.Algebra.Order.Archimedean.Real.Basic
 import Mathlib.Tactic.NormNum
 /-!
@@ -129,8 +130,8 @@ theorem C05_trials_in_box_reach (c : Solver.Config α) (hn : Ev.DimOK1 c.n)
 /-- **C05, the reported best trial is in the box, also after refinement.**  After any sequence of
 operations on a fresh solver, if every result `lr` of the local search satisfies the contract
 "`lr.x` is inside the bounds" (`NM.inside`), the stored point of EVERY item of the search information
-— in particular of the best trial `findItem s.items s.best`, which is what `GetResults` reports — lies
-in the closed box. -/
+— in particular of the method's best trial `findItem s.items s.best` and of the trial
+`findItem s.items (reportedId ps s)` that `GetResults` reports — lies in the closed box. -/
 theorem C05_best_in_box (c : Solver.Config α) (hn : Ev.DimOK1 c.n) (hl : c.lower.length = c.n)
     (hu : c.upper.length = c.n)
     (hlt : ∀ i (h1 : i < c.lower.length) (h2 : i < c.upper.length), c.lower[i] < c.upper[i])
@@ -138,11 +139,13 @@ theorem C05_best_in_box (c : Solver.Config α) (hn : Ev.DimOK1 c.n) (hl : c.lowe
     (href : ∀ ps lr, refine ps = some lr → InBox c.lower c.upper lr.x) (ops : List Op) :
     ∀ s, (runOps (Solver.mk c) f refine ops {}).m = some s →
       (∀ it ∈ s.items, InBox c.lower c.upper it.point) ∧
-      ∀ b, findItem s.items s.best = some b → InBox c.lower c.upper b.point := by
+      (∀ b, findItem s.items s.best = some b → InBox c.lower c.upper b.point) ∧
+      ∀ b, findItem s.items (reportedId (runOps (Solver.mk c) f refine ops {}) s) = some b →
+        InBox c.lower c.upper b.point := by
   intro s hs
   have h := (pointsInv_runOps (Solver.mk c) f (InBox c.lower c.upper)
     (fun x h0 h1 => image_inBox c hn hl hu hlt h0 h1) refine href ops).2 s hs
-  exact ⟨h, fun b hb => h b (findItem_mem hb)⟩
+  exact ⟨h, fun b hb => h b (findItem_mem hb), fun b hb => h b (findItem_mem hb)⟩
 
 /-- **C05, the best trial of the global phase is strictly inside.**  In every reachable state of the
 method (laws of the library functions, `1 < r`) the best trial exists, is one of the evaluated trials
@@ -157,15 +160,21 @@ theorem C05_best_strictly_in_box (c : Solver.Config α) (hn : Ev.DimOK1 c.n)
   exact ⟨b, hb, hmem, (C05_trials_in_box_reach c hn hl hu hlt h).1 _ hmem⟩
 
 /-- **C05, after `DoLocalRefinement` under the Nelder–Mead contract.**  If the process holds the method
-state `s` and `lr` satisfies `NM obj lower upper lr b.point` for the best trial `b`, then after
-`doLocalRefinement` the reported best trial has point `lr.x`, inside the box. -/
+state `s` and `lr` satisfies `NM obj lower upper lr b.point` for the reported trial `b` (the trial with id
+`reportedId ps s`, which is the method's best `s.best` when nothing was refined before), then after
+`doLocalRefinement` that trial has point `lr.x`, inside the box; and if moreover the old record is faithful
+(`b.hv = obj b.point`) it is still the reported trial. -/
 theorem C05_refined_best_in_box (c : Solver.Config α) (ps : PState α) (s : State α) (lr : LocalResult α)
-    (hm : ps.m = some s) (b : Item α) (hb : findItem s.items s.best = some b) (obj : List α → α)
+    (hm : ps.m = some s) (b : Item α) (hb : findItem s.items (reportedId ps s) = some b) (obj : List α → α)
     (hnm : NM obj c.lower c.upper lr b.point) :
-    ∃ s' b', (doLocalRefinement ps lr).m = some s' ∧ findItem s'.items s'.best = some b' ∧
-      b'.point = lr.x ∧ InBox c.lower c.upper b'.point := by
-  obtain ⟨s', hm', -, -, -, -, -, -, -, -, -, -, -, -, -, -, -, -, hbest⟩ := C05_refine ps s lr hm
-  exact ⟨s', _, hm', (hbest b hb).1, rfl, hnm.inside⟩
+    ∃ s' b', (doLocalRefinement ps lr).m = some s' ∧ findItem s'.items (reportedId ps s) = some b' ∧
+      b'.point = lr.x ∧ InBox c.lower c.upper b'.point ∧
+      (ps.refined = none → reportedId ps s = s.best) ∧
+      (b.hv = obj b.point → reportedId (doLocalRefinement ps lr) s' = reportedId ps s) := by
+  obtain ⟨s', hm', hs', -, -, -, -, -, -, -, -, -, -, -, -, -, -, -, -, hbest⟩ := C05_refine ps s lr hm
+  refine ⟨s', _, hm', (hbest b hb).1, rfl, hnm.inside, fun h => reportedId_of_none s h, fun hfid => ?_⟩
+  subst hs'
+  exact reportedId_refine_of_le lr hm hb (by rw [hfid]; exact hnm.le_start)
 
 /-! ## Non-vacuity (over ℝ with the real-number library functions) -/
 section NonVacuity
@@ -227,7 +236,7 @@ example : ∀ s, (runOps (Solver.mk exampleConfig) (fun _ pt => some pt.sum)
     ∀ b, findItem s.items s.best = some b → InBox exampleConfig.lower exampleConfig.upper b.point := by
   intro s hs
   refine (C05_best_in_box exampleConfig (by show Ev.DimOK1 2; decide) rfl rfl
-    exampleConfig_lt _ _ ?_ _ s hs).2
+    exampleConfig_lt _ _ ?_ _ s hs).2.1
   intro ps lr hlr
   simp only [Option.some.injEq] at hlr
   subst hlr
